@@ -89,7 +89,7 @@ CHECKS = {
    text="Partial. Theorems: every kernel that rewrites text or reorders is idempotent (quote rewrite, quote choice, newline conversion, comment trimming, require-group sorting). Whole-program idempotence is validated on a fixed regression set only "
         "(second pass byte-compared); its known non-idempotent inputs are listed per input. "
         "L0 (Fmt0.v): a whole-formatter model on a fragment of Lua 5.1 (every statement kind but goto/labels; expressions without function bodies and long strings; escapes, all quote styles, statement-level line comments and empty lines; call sugar; tables written over several lines (nested indentation inside expressions) with comments and empty lines between their fields; the whitespace, quote, call_parentheses, space_after_function_names and collapse_simple_statement options), tied to the binary byte for byte on every run (svh l0 x drv_l0). On L0: normalisation is not idempotent (refutation theorem with witness `local x = (- -f())`, replayed on the binary: known finding), and it IS idempotent - both passes, so formatting the written tree again gives the same bytes - "
-        "for every program in which no unary minus stands, through parentheses, in front of something that starts with a unary minus (Fmt0Idem.norm0_idempotent; the premise is a boolean predicate, extracted, counted per record); "
+        "for every program in which no unary minus is written directly in front of something that starts with a unary minus, `- -x` (Fmt0Idem.norm0_idempotent; the premise is a boolean predicate, extracted, counted per record); what format0 writes always meets the premise, so the second pass is ALWAYS a fixed point (norm0_second_pass_is_a_fixed_point: a third pass changes nothing on any program; the tie runs the library's third pass wherever its second differs); "
         "the tie compares the library's SECOND pass byte for byte with the model's on every record, so on the fragment a second-pass difference the model does not predict is a violation under any seed. "
         "Regenerated from the source on every run and proved against the model: the `- -` guard (parenthesise_double_minus) and the condition rule (remove_condition_parentheses: one pass leaves no removable layer).",
    design="5/C06", technique="Coq proof of kernel idempotence and of whole-program idempotence on the L0 model under a stated premise (refuted without it) + rs2v-regenerated kernels (guard, condition rule) + L0 byte-for-byte tie of first AND second pass + second-pass comparison on a fixed regression set with per-input baseline",
